@@ -26,3 +26,11 @@ Theorem C01_legacy_attr_loop_diverges : forall parse_attr element_tag fuel w,
   attr_loop parse_attr is_unicode_whitespace element_tag fuel [12288%N] w = OutOfFuel.
 Proof. exact legacy_attr_loop_diverges. Qed.
 Print Assumptions C01_legacy_attr_loop_diverges.
+
+(* the decoding loop of static text / attribute values (entity scanner, Model/TextDecode.v):
+   every step consumes at least one character, whatever the named-reference table *)
+From GE Require Import Model.TextDecode Proofs.TextDecodeProofs.
+Theorem C01_text_decoder_progress : forall named s, s <> [] ->
+  (length (snd (next_piece named s)) < length s)%nat.
+Proof. exact next_piece_progress. Qed.
+Print Assumptions C01_text_decoder_progress.
